@@ -275,7 +275,23 @@ pub fn check(c: &Case) -> Outcome {
                     return Outcome::viol(format!("RADAU: the same mass matrix in Full and Banded{{ml:{},mu:{}}} storage gives different trajectories ({} vs {} steps)", ml, mu, full.naccpt, bnd.naccpt));
                 }
             }
-            Outcome::pass("mass-ode", not_diag, json!({"n": n, "ml": ml, "mu": mu, "naccpt": full.naccpt}))
+            // the same equation in other units: (2^k M) y' = (2^k M) g is an exact rescaling of both sides (every pivot,
+            // every right-hand side of the linear systems scales by the same power of two): bit-identical
+            let k = if off.len() >= 64 && off[62] > 0.2 { (off[63] * 100.0).round() as i32 } else { 0 };
+            if k != 0 {
+                let sc = 2f64.powi(k);
+                let ms: Vec<f64> = m.iter().map(|v| v * sc).collect();
+                let mms = Matrix::from_vec(n, n, ms.clone());
+                let rhs_s = MassRhs { inner: &prob, m: &ms };
+                let fs = match solve_with(&rhs_s, c, &y0, true, None, Some(&mms), &Extra { mass_storage: Some(MatrixStorage::Full), ..Default::default() }) {
+                    Ok(s) => s,
+                    Err(e) => return Outcome::viol(format!("RADAU with the mass matrix and right-hand side scaled by 2^{}: {}", k, e)),
+                };
+                if !same(&full, &fs) {
+                    return Outcome::viol(format!("RADAU: M y' = M g and (2^{k} M) y' = (2^{k} M) g give different runs: {} / {} steps vs {} / {} steps (n={})", status_name(full.status), full.naccpt, status_name(fs.status), fs.naccpt, n, k = k));
+                }
+            }
+            Outcome::pass("mass-ode", not_diag, json!({"n": n, "ml": ml, "mu": mu, "naccpt": full.naccpt, "mass_scale_log2": k}))
         }
         Kind::Dae { n2, b, cs, ds } => {
             let rhs = DaeRhs { inner: &prob, n2: *n2, b, cs, ds };
@@ -535,7 +551,7 @@ pub fn run(ctx: &Ctx, known: &[Known]) -> Report {
     let stats = run_generated(ctx, "C15", "gen", &strategy, &check, cases, known);
     Report {
         id: "C15".into(),
-        rule: "six kinds of cases on closed-form problems (n<=6) and banded nonlinear systems (n<=8): (a) M y' = M g with M strictly diagonally dominant, dense or banded (all (ml,mu)), against the exact solution of y'=g, and Full vs Banded mass storage bit-identical; (b) index-1 DAEs y1' = g(t,y1) + B(y2 - psi(y1)), 0 = psi(y1) - y2 with M = diag(I,0): constraint residual at every sample and y1 against the exact solution of the reduced ODE; (c) no mass override: mass_storage Identity / Full / Banded and the low-level RADAU::builder() defaults give the same run; (d) Full vs Banded Jacobian storage with an analytic banded Jacobian, Radau and BDF, bit-identical incl. counters; identity mass in Identity / Full / Banded{0,0}; (e) analytic vs finite-difference Jacobian both within the accuracy bound (a run that succeeds with the analytic one must succeed with the default one); (f) the default finite-difference Jacobian entry by entry against the analytic one at an on-solution state with component magnitudes 2^0..2^10 (tolerance = 4 x the forward-difference truncation term measured by the harness's own second difference + 16 x the measured rounding noise of f / delta), and the two runs. Non-trivial = M not diagonal / n2 >= 1 / bandwidth below n-1 / at least 3 steps. Distinct = distinct canonical JSON.".into(),
+        rule: "six kinds of cases on closed-form problems (n<=6) and banded nonlinear systems (n<=8): (a) M y' = M g with M strictly diagonally dominant, dense or banded (all (ml,mu)), against the exact solution of y'=g, and Full vs Banded mass storage bit-identical, and both sides multiplied by 2^k (k up to +-100) bit-identical; (b) index-1 DAEs y1' = g(t,y1) + B(y2 - psi(y1)), 0 = psi(y1) - y2 with M = diag(I,0): constraint residual at every sample and y1 against the exact solution of the reduced ODE; (c) no mass override: mass_storage Identity / Full / Banded and the low-level RADAU::builder() defaults give the same run; (d) Full vs Banded Jacobian storage with an analytic banded Jacobian, Radau and BDF, bit-identical incl. counters; identity mass in Identity / Full / Banded{0,0}; (e) analytic vs finite-difference Jacobian both within the accuracy bound (a run that succeeds with the analytic one must succeed with the default one); (f) the default finite-difference Jacobian entry by entry against the analytic one at an on-solution state with component magnitudes 2^0..2^10 (tolerance = 4 x the forward-difference truncation term measured by the harness's own second difference + 16 x the measured rounding noise of f / delta), and the two runs. Non-trivial = M not diagonal / n2 >= 1 / bandwidth below n-1 / at least 3 steps. Distinct = distinct canonical JSON.".into(),
         assumptions: vec!["accuracy bound as in C01 with cond(M) <= 5 for the diagonally dominant mass matrices".into(), "constraint residual bound C*tolscale*sqrt(naccpt)".into()],
         min_nontrivial_frac: 0.5,
         stats,
